@@ -1,8 +1,8 @@
 SPECIFICATION Spec
 CONSTANTS
-  AdminLists = {{}, {"alice"}, {"alice", "bob"}}
+  AdminLists = {{}, {"alice"}, {"alice", "bob"}, {"bob"}, {"Alice"}}
   Headers = {"X-Forwarded-User", "X-Verif-Acl"}
-  Vals = {"", "alice", "bob", "mallory", "ALICE", "Alice", "alic", "alicex", " alice ", "alice,bob", "alice bob"}
+  Vals = {"", "alice", "bob", "mallory", "ALICE", "Alice", "alic", "alicex", " alice ", "alice,bob", "alice bob", "*", "alice;", "root", "bob,alice", "%61lice"}
   Cidrs = {"", "127.0.0.1/8", "127.0.0.1/32", "10.0.0.0/8", "192.0.2.0/30", "0.0.0.0/0", "::1/128", "fd00::/8"}
   Srcs = {"127.0.0.1", "127.0.0.2", "127.200.1.9", "192.0.2.2", "10.1.2.3", "::ffff:127.0.0.1", "::1", "fd00::2", "noport"}
   Deep = TRUE
